@@ -113,6 +113,17 @@ def build_ops():
     ops.append(("divmod", "call", "arith", lambda x, y: np.divmod(x, y), None))
     ops.append(("clip", "ufunc3", "into", lambda x, y: np.clip(x, y, y), "leftq"))
     ops.append(("clip", "method", "into", lambda x, y: x.clip(y, y), "leftq"))
+    # every bound position and spelling separately: an invalid bound next to a valid/open one must still be refused
+    ops.append(("clip", "lo_only", "into", lambda x, y: np.clip(x, y, None), "leftq"))
+    ops.append(("clip", "hi_only", "into", lambda x, y: np.clip(x, None, y), "leftq"))
+    ops.append(("clip", "lo_valid_hi", "into", lambda x, y: np.clip(x, x.copy(), y), "leftq"))
+    ops.append(("clip", "lo_hi_valid", "into", lambda x, y: np.clip(x, y, x.copy()), "leftq"))
+    ops.append(("clip", "kw_min_max", "into", lambda x, y: np.clip(x, min=y, max=y), "leftq"))
+    ops.append(("clip", "kw_min", "into", lambda x, y: np.clip(x, min=y), "leftq"))
+    ops.append(("clip", "kw_max", "into", lambda x, y: np.clip(x, max=y), "leftq"))
+    ops.append(("clip", "kw_a_min_a_max", "into", lambda x, y: np.clip(x, a_min=y, a_max=y), "leftq"))
+    ops.append(("clip", "pos_lo_kw_max", "into", lambda x, y: np.clip(x, x.copy(), max=y), "leftq"))
+    ops.append(("clip", "out", "into", lambda x, y: np.clip(x, y, y, out=x.copy()), "leftq"))
     for sym, f, klass in [
         ("+", operator.add, "arith"),
         ("-", operator.sub, "arith"),
@@ -132,7 +143,11 @@ def build_ops():
     M = "merge"
     ops += [
         ("concatenate", "func", M, lambda x, y: np.concatenate([_1d(x), _1d(y)]), None),
+        ("concatenate", "func3_last", M, lambda x, y: np.concatenate([_1d(x), _1d(x), _1d(y)]), "leftq"),
+        ("concatenate", "func3_mid", M, lambda x, y: np.concatenate([_1d(x), _1d(y), _1d(x)]), "leftq"),
+        ("concatenate", "tuple_axis", M, lambda x, y: np.concatenate((_1d(x), _1d(y)), axis=0), None),
         ("stack", "func", M, lambda x, y: np.stack([x, y]), "sameshape"),
+        ("stack", "func3_last", M, lambda x, y: np.stack([x, x, y]), "sameshape"),
         ("vstack", "func", M, lambda x, y: np.vstack([x, y]), None),
         ("hstack", "func", M, lambda x, y: np.hstack([_1d(x), _1d(y)]), None),
         ("dstack", "func", M, lambda x, y: np.dstack([x, y]), "sameshape"),
